@@ -26,7 +26,7 @@ pub fn ensure_ram_fn(
         }
 
         fn apply(
-            &mut self,
+            &self,
             ctx: &Evaluator,
             args: &[&Located<Expression>],
         ) -> EvaluationResult<Option<SymbolData>> {
